@@ -141,7 +141,12 @@ def build_traces(path, tier, seed):
             xi_ = np.round(x / np.max(np.abs(x)) * 40)
             if np.max(np.abs(xi_)) == 0:
                 xi_[0] = 3
-            x = xi_.astype([np.int64, np.int32][(i // 5) % 2])
+            dt_ = [np.int64, np.int32, np.int8, np.int16][(i // 5) % 4]
+            if dt_ in (np.int8, np.int16):
+                # full-range counts of a narrow type, including its most negative count (which has no absolute value in the type)
+                xi_ = np.round(x / np.max(np.abs(x)) * np.iinfo(dt_).max)
+                xi_[int(rng.integers(n))] = np.iinfo(dt_).min
+            x = xi_.astype(dt_)
             aref = float(np.max(np.abs(x)) * rng.uniform(0.2, 1.5))
         sw = pc.get_switched_peak_array_indices(x)
         ncyc = col0(im.calc_n_cyc_array_w_power_law(x, aref, b, cut_off=cut), n)
